@@ -29,6 +29,40 @@ CASES = [
     m('wildcard-ignores-position', 'R2', 'deep_find_match_Name[___ vs Name (other position)]',
       "        elif match[_WILD] and meta_matched:  # if wild card, don't care",
       "        elif match[_WILD]:  # if wild card, don't care"),
+    m('revert-fix-exp-key-of-attribute', 'R6', 'shallow_symbol_handler[Attribute.attr=__e__]',
+      "        key = ast_node.id if hasattr(ast_node, 'id') else ast_node._id\n        self.exp_table[key] = std_node",
+      "        self.exp_table[ast_node.id] = std_node", file='pedal/cait/ast_map.py'),
+    m('window-starts-after-first-surviving-sibling', 'R3', 'sibling-search[',
+      "        youngest_sib = run_sibs[0]\n", "        youngest_sib = run_sibs[-1]\n"),
+    m('window-never-moves-back-for-later-bases', 'R3', 'sibling-search[',
+      "                if runSib > base_sib:", "                if runSib > base_sib and runSib >= max(base_sibs):"),
+    m('only-first-candidate-extends-a-base', 'R3', 'sibling-search[',
+      "                            new_maps.append(new_map)\n                            new_sibs.append(runSib)\n",
+      "                            new_maps.append(new_map)\n                            new_sibs.append(runSib)\n                            break\n"),
+    m('merged-map-shares-function-table', 'R4', 'new_merged_map:',
+      "        new_map = AstMap()\n        new_map.merge_map_with(self)\n        new_map.merge_map_with(other)\n        return new_map",
+      "        new_map = AstMap()\n        new_map.merge_map_with(self)\n        new_map.func_table = self.func_table\n        new_map.merge_map_with(other)\n        return new_map",
+      file='pedal/cait/ast_map.py'),
+    m('merge-done-in-place-on-the-base', 'R4', 'new_merged_map:base-unchanged',
+      "        new_map = AstMap()\n        new_map.merge_map_with(self)\n        new_map.merge_map_with(other)\n        return new_map",
+      "        self.merge_map_with(other)\n        return self", file='pedal/cait/ast_map.py'),
+    m('pattern-text-stripped-per-line', 'R5', 'pattern-text-parsed-as-given',
+      "            ast_node = ast.parse(ast_or_code, filename)",
+      "            ast_node = ast.parse('\\n'.join(line.rstrip() for line in ast_or_code.split('\\n')), filename)"),
+    m('search-prunes-non-statements', 'R1', 'any_node_match[h1]',
+      "        for std_child in std_node.children:\n            matching_c = self.any_node_match(",
+      "        for std_child in std_node.children:\n            if isinstance(ins_node.astNode, ast.stmt) and not isinstance(std_child.astNode, ast.stmt):\n                continue\n            matching_c = self.any_node_match("),
+    dict(name='twin-exp-key-through-getattr', kind='twin', edits=[dict(file='pedal/cait/ast_map.py',
+         old="        key = ast_node.id if hasattr(ast_node, 'id') else ast_node._id\n",
+         new="        key = getattr(ast_node, 'id', None)\n        if key is None:\n            key = ast_node._id\n")]),
+    dict(name='twin-window-is-the-smallest-candidate', kind='twin', edits=[dict(file=ST,
+         old="        youngest_sib = run_sibs[0]\n", new="        youngest_sib = min(run_sibs)\n")]),
+    dict(name='twin-pattern-text-stripped-at-the-ends', kind='twin', edits=[dict(file=ST,
+         old="            ast_node = ast.parse(ast_or_code, filename)",
+         new="            ast_node = ast.parse(ast_or_code.strip('\\n'), filename)")]),
+    dict(name='twin-search-prunes-leaf-expressions', kind='twin', edits=[dict(file=ST,
+         old="        for std_child in std_node.children:\n            matching_c = self.any_node_match(",
+         new="        for std_child in std_node.children:\n            if isinstance(ins_node.astNode, ast.stmt) and isinstance(std_child.astNode, ast.expr_context):\n                continue\n            matching_c = self.any_node_match(")]),
     dict(name='twin-children-copied-before-search', kind='twin', edits=[dict(file=ST,
          old="        for std_child in std_node.children:\n            matching_c = self.any_node_match(",
          new="        for std_child in list(std_node.children):\n            matching_c = self.any_node_match(")]),
